@@ -114,6 +114,50 @@ theorem followAux_none (read : Name → Option Val) : ∀ (fuel : Nat) (n : Name
           exact ih _ _ _ h
         · simp [hs] at h
 
+/-- `names = [n₀, …, n_k]` is a chain of symbolic refs ending in the direct value `v`: every name but the
+last reads as `ref: <next name>`, the last reads as `v` (non-empty, not a symref) -/
+def IsChain (read : Name → Option Val) : List Name → Val → Prop
+  | [], _ => False
+  | [n], v => read n = some v ∧ v ≠ [] ∧ symref.isPrefixOf v = false
+  | n :: n' :: rest, v => read n = some (symref ++ n') ∧ IsChain read (n' :: rest) v
+
+theorem followAux_chain (read : Name → Option Val) (v : Val) : ∀ (rest : List Name) (fuel : Nat) (n : Name)
+    (acc : List Name), IsChain read (n :: rest) v →
+    followAux read fuel n acc =
+      if rest.length < fuel then .ok (acc ++ n :: rest, some v) else .error .symrefLoop := by
+  intro rest
+  induction rest with
+  | nil =>
+    intro fuel n acc h
+    obtain ⟨hr, hne, hns⟩ := h
+    have he : v.isEmpty = false := by cases v with | nil => exact absurd rfl hne | cons _ _ => rfl
+    unfold followAux
+    simp only [hr, he, Bool.false_eq_true, if_false, List.length_nil]
+    cases fuel with
+    | zero => simp
+    | succ f => simp [hns]
+  | cons n' rest ih =>
+    intro fuel n acc h
+    obtain ⟨hr, hrest⟩ := h
+    have hsym : symref.isPrefixOf (symref ++ n') = true := List.isPrefixOf_iff_prefix.mpr ⟨n', rfl⟩
+    have hne : (symref ++ n').isEmpty = false := by simp [symref]
+    unfold followAux
+    simp only [hr, hne, Bool.false_eq_true, if_false, List.length_cons]
+    cases fuel with
+    | zero => simp
+    | succ f =>
+      have hdrop : (symref ++ n').drop symref.length = n' := by simp
+      simp only [hsym, if_true, hdrop]
+      rw [ih f n' (acc ++ [n]) hrest]
+      have e : acc ++ [n] ++ n' :: rest = acc ++ n :: n' :: rest := by simp
+      rw [e]
+      by_cases hlt : rest.length < f
+      · have : rest.length + 1 < f + 1 := by omega
+        simp [hlt, this]
+      · have : ¬ rest.length + 1 < f + 1 := by omega
+        simp [hlt, this]
+
+
 /-! ### paths -/
 
 theorem ancestors_length_lt : ∀ (n p : Bytes), p ∈ ancestors n → p.length < n.length := by
